@@ -30,6 +30,7 @@ def jobs(ctx, props):
         out.append((name + '/explicit', E[name], ['A', 'B'] if name == 'single' else ['A'],
                     props, {'reqs': 2, 'mode': 'explicit', 'max_workers': 2,
                             'outcomes': ('success', 'failure')}))
+    out += schedcheck.timer_jobs(props, quick)
     return out
 
 
